@@ -19,8 +19,10 @@ package main
 // holding the value where it stopped: the answer over-approximates the set of sources.
 
 import (
+	"fmt"
 	"go/token"
 	"go/types"
+	"os"
 	"sort"
 
 	"golang.org/x/tools/go/ssa"
@@ -83,21 +85,67 @@ type srcQuery struct {
 	complete bool
 	budget   int
 	seenPhi  map[*ssa.Phi]bool
+	noRefute bool
 }
 
 // sources: the leaves of v as read at instruction at.
 func (w *World) sources(v ssa.Value, at ssa.Instruction, stop func(*ssa.Function) bool) ([]srcLeaf, bool) {
+	return w.sourcesIn(v, at, nil, nil, stop)
+}
+
+// sourcesIn: v is a value of a helper invocation described by frames (outermost first);
+// facts are must-facts already known (in whatever terms).
+func (w *World) sourcesIn(v ssa.Value, at ssa.Instruction, frames []srcFrame, facts []Fact, stop func(*ssa.Function) bool) ([]srcLeaf, bool) {
 	q := &srcQuery{w: w, stop: stop, complete: true, budget: 4000, seenPhi: map[*ssa.Phi]bool{}}
-	var facts []Fact
 	if at != nil {
-		facts = w.factsAt(at)
+		facts = addFacts(facts, w.factsAt(at))
 	}
 	where := "-"
 	if at != nil {
 		where = w.instrPos(at)
 	}
-	q.walk(v, nil, facts, nil, nil, where, 0)
+	q.walk(v, nil, facts, nil, frames, where, 0)
+	if os.Getenv("TURNCHECK_SRCDEBUG") != "" {
+		fmt.Fprintf(os.Stderr, "SOURCES of %s (frames %d): complete=%v budget=%d\n", w.key(v), len(frames), q.complete, q.budget)
+		for _, l := range q.out {
+			fmt.Fprintf(os.Stderr, "   leaf %s sel=%v mem=%v where=%s frames=%d\n", w.key(l.val), l.sel, l.mem != nil, l.where, len(l.frames))
+		}
+	}
 	return q.out, q.complete && q.budget > 0
+}
+
+// framesOfVirtual: the helper invocation a translated (virtual or synthetic) value belongs
+// to, and the helper-side value it stands for.
+func (w *World) framesOfVirtual(v ssa.Value) (ssa.Value, []srcFrame, bool) {
+	var frames []srcFrame
+	cur := v
+	for i := 0; i < 6; i++ {
+		var site *ssa.Call
+		var orig ssa.Value
+		if vv, ok := cur.(*virtVal); ok && vv.site != nil && vv.orig != nil {
+			site, orig = vv.site, vv.orig
+		} else if s2 := w.ss().synSite[cur]; s2 != nil {
+			site, orig = s2, w.ss().synOrigin[cur]
+		}
+		if site == nil || orig == nil || site.Call.StaticCallee() == nil {
+			break
+		}
+		frames = append([]srcFrame{{site.Call.StaticCallee(), site}}, frames...)
+		cur = orig
+		// the site itself may be a translated call of an outer helper
+		if !w.isSynthetic(site) {
+			return cur, frames, true
+		}
+		// nested: continue with the site (its own origin gives the outer frame)
+		outerSite := w.ss().synSite[site]
+		if outerSite == nil {
+			return cur, frames, true
+		}
+		frames[0].site = w.realOf(site).(*ssa.Call)
+		frames = append([]srcFrame{{outerSite.Call.StaticCallee(), outerSite}}, frames...)
+		return cur, frames, !w.isSynthetic(outerSite)
+	}
+	return v, nil, false
 }
 
 func (q *srcQuery) leaf(l srcLeaf) { q.out = append(q.out, l) }
@@ -131,6 +179,7 @@ func (q *srcQuery) walk(v ssa.Value, path []int, facts []Fact, alias []ssa.Value
 	w := q.w
 	q.budget--
 	if q.budget < 0 || depth > 40 {
+		q.why("budget/depth")
 		q.complete = false
 		q.leaf(srcLeaf{val: v, facts: facts, alias: alias, where: where, frames: frames})
 		return
@@ -159,6 +208,9 @@ func (q *srcQuery) walk(v ssa.Value, path []int, facts []Fact, alias []ssa.Value
 			}
 			fs = append(fs, edgeFacts(pred, x.Block())...)
 			fs = w.importFacts(fs)
+			if q.refuted(fs, frames, facts) {
+				continue // the edge cannot be taken in this context
+			}
 			q.walk(e, path, addFacts(facts, fs), addAlias(alias, x), frames, w.instrPos(pred.Instrs[len(pred.Instrs)-1]), depth+1)
 		}
 		return
@@ -217,6 +269,7 @@ func (q *srcQuery) walk(v ssa.Value, path []int, facts []Fact, alias []ssa.Value
 		// a field of something we cannot open: precise when that something is a parameter of
 		// the outermost function (the source is "field sel of that parameter")
 		if _, isParam := v.(*ssa.Parameter); !isParam || len(frames) > 0 {
+			q.why(fmt.Sprintf("field %v of unopened %T %s", path, v, w.key(v)))
 			q.complete = false
 		}
 	}
@@ -245,10 +298,178 @@ func (q *srcQuery) intoCall(call *ssa.Call, idx int, path []int, facts []Fact, a
 			return false
 		}
 	}
+	// what is already known about this call's other results (err == nil, ok == true)
+	type oc struct {
+		idx  int
+		want string
+	}
+	var known []oc
+	for _, f := range facts {
+		x, outcome := factOutcome(f)
+		if x == nil {
+			continue
+		}
+		if fc, fi := callOf(w.resolveLoad(x)); fc == call {
+			if fi < 0 {
+				fi = 0
+			}
+			known = append(known, oc{fi, outcome})
+		}
+	}
 	for _, r := range rets {
-		q.walk(r.Results[idx], path, addFacts(facts, w.factsAt(r)), alias, fr2, w.instrPos(r), depth+1)
+		compatible := true
+		for _, k := range known {
+			if k.idx >= len(r.Results) || k.idx == idx {
+				continue
+			}
+			rv := stripIface(w.resolveLoad(r.Results[k.idx]))
+			switch k.want {
+			case "nil", "nonnil":
+				if cst, isC := rv.(*ssa.Const); isC {
+					if isNilConst(cst) != (k.want == "nil") {
+						compatible = false
+					}
+				} else if w.absint().definitelyNonNil(rv) && k.want == "nil" {
+					compatible = false
+				} else {
+					for _, rf := range w.factsAt(r) {
+						if fv, isNil, ok := nilFact(rf); ok && (fv == rv || w.sameKey(fv, rv)) && isNil != (k.want == "nil") {
+							compatible = false
+						}
+					}
+				}
+			case "true", "false":
+				if cst, isC := rv.(*ssa.Const); isC && cst.Value != nil && isBoolType(cst.Type()) {
+					if (cst.Value.String() == "true") != (k.want == "true") {
+						compatible = false
+					}
+				}
+			}
+		}
+		if !compatible {
+			continue
+		}
+		rf := w.factsAt(r)
+		if q.refuted(rf, fr2, facts) {
+			continue
+		}
+		q.walk(r.Results[idx], path, addFacts(facts, rf), alias, fr2, w.instrPos(r), depth+1)
 	}
 	return true
+}
+
+// refuted: one of the conditions fs (must-facts of an edge or a return, in the terms of the
+// innermost frame) is false in this context: both sides reduce to constants that disagree
+// with it, or it says a string is empty whose only source is a string that was successfully
+// parsed as a decimal number (directly, or as the first field of its split).
+func (q *srcQuery) refuted(fs []Fact, frames []srcFrame, ctx []Fact) bool {
+	if q.noRefute || len(frames) == 0 {
+		return false
+	}
+	for _, f := range fs {
+		switch f.Op {
+		case "true":
+			if c, ok := q.constOf(f.X, frames, ctx); ok && c.Value != nil && isBoolType(c.Type()) {
+				if (c.Value.String() == "true") != f.Truth {
+					return true
+				}
+			}
+		case "==":
+			cy, okY := q.constOf(f.Y, frames, ctx)
+			if !okY {
+				continue
+			}
+			if cx, okX := q.constOf(f.X, frames, ctx); okX {
+				eq := constEqual(cx, cy)
+				if eq != f.Truth {
+					return true
+				}
+				continue
+			}
+			// X == "" where X's only source was parsed as a number
+			if f.Truth && cy.Value != nil && cy.Value.ExactString() == `""` {
+				if q.parsedNonEmpty(f.X, frames, ctx) {
+					return true
+				}
+			}
+		}
+	}
+	return false
+}
+
+func constEqual(a, b *ssa.Const) bool {
+	if a.Value == nil || b.Value == nil {
+		return a.Value == nil && b.Value == nil
+	}
+	return a.Value.ExactString() == b.Value.ExactString()
+}
+
+// constOf: every source of v in this context is the same constant.
+func (q *srcQuery) constOf(v ssa.Value, frames []srcFrame, ctx []Fact) (*ssa.Const, bool) {
+	if c, ok := v.(*ssa.Const); ok {
+		return c, true
+	}
+	if v == nil {
+		return nil, false
+	}
+	sub := &srcQuery{w: q.w, stop: q.stop, complete: true, budget: 300, seenPhi: map[*ssa.Phi]bool{}, noRefute: true}
+	sub.walk(v, nil, ctx, nil, frames, "-", 0)
+	if !sub.complete || sub.budget <= 0 || len(sub.out) == 0 {
+		return nil, false
+	}
+	var c0 *ssa.Const
+	for _, l := range sub.out {
+		c, ok := l.val.(*ssa.Const)
+		if !ok || len(l.sel) > 0 || l.mem != nil {
+			return nil, false
+		}
+		if c0 == nil {
+			c0 = c
+		} else if !constEqual(c0, c) {
+			return nil, false
+		}
+	}
+	return c0, c0 != nil
+}
+
+// parsedNonEmpty: the string v has, in this context, a single source L, and on the way a
+// decimal parse (Atoi / ParseInt base 10) of L — or of element 0 of strings.Split(L, sep) —
+// is known to have succeeded: L is not empty.
+func (q *srcQuery) parsedNonEmpty(v ssa.Value, frames []srcFrame, ctx []Fact) bool {
+	w := q.w
+	sub := &srcQuery{w: w, stop: q.stop, complete: true, budget: 300, seenPhi: map[*ssa.Phi]bool{}, noRefute: true}
+	sub.walk(v, nil, ctx, nil, frames, "-", 0)
+	if !sub.complete || len(sub.out) != 1 {
+		return false
+	}
+	l := &sub.out[0]
+	if l.mem != nil || len(l.sel) > 0 {
+		return false
+	}
+	for _, f := range l.facts {
+		x, isNil, ok := nilFact(f)
+		if !ok || !isNil {
+			continue
+		}
+		pc, pi := callOf(x)
+		if pc == nil || pi != 1 || !isDecimalParse(pc) {
+			continue
+		}
+		arg := w.resolveLoad(pc.Call.Args[0])
+		if l.isAlias(w, arg) {
+			return true
+		}
+		if u, ok := arg.(*ssa.UnOp); ok && u.Op == token.MUL {
+			if ia, ok := u.X.(*ssa.IndexAddr); ok {
+				if k, isK := constInt(ia.Index); isK && k == 0 {
+					if sc, _ := callOf(ia.X); sc != nil && isColonSplit(sc) && l.isAlias(w, w.resolveLoad(sc.Call.Args[0])) {
+						return true
+					}
+				}
+			}
+		}
+	}
+	return false
 }
 
 // localStruct: a struct-typed local whose address does not leave the function other than as
@@ -280,6 +501,7 @@ func (q *srcQuery) reaching(al *ssa.Alloc, path []int, ld ssa.Instruction, facts
 	fn := al.Parent()
 	st, ok := derefType(al.Type()).Underlying().(*types.Struct)
 	if !ok || len(path) == 0 || path[0] >= st.NumFields() || ld.Parent() != fn {
+		q.why("reaching: not a struct local / foreign load")
 		q.complete = false
 		q.leaf(srcLeaf{val: ld.(ssa.Value), facts: facts, alias: alias, where: w.instrPos(ld), frames: frames})
 		return
@@ -379,8 +601,9 @@ func (q *srcQuery) reaching(al *ssa.Alloc, path []int, ld ssa.Instruction, facts
 					ft = s2.Field(i).Type()
 				}
 			}
-			zv = zeroConstOf(ft)
+			zv = zeroConstAny(ft)
 			if zv == nil {
+				q.why("no zero constant for " + ft.String())
 				q.complete = false
 				continue
 			}
@@ -572,4 +795,10 @@ func (q *srcQuery) pathFacts(from, to ssa.Instruction, blocks map[*ssa.BasicBloc
 // instrReachesStraight: a and b are in one block, a before b.
 func instrReachesStraight(a, b ssa.Instruction) bool {
 	return a.Block() == b.Block() && indexIn(a) >= 0 && indexIn(a) < indexIn(b)
+}
+
+func (q *srcQuery) why(msg string) {
+	if os.Getenv("TURNCHECK_SRCDEBUG") != "" {
+		fmt.Fprintf(os.Stderr, "   incomplete: %s\n", msg)
+	}
 }
